@@ -322,6 +322,10 @@ func c15Seq(c *core.Ctx, ops []c15Op, seq []int) bool {
 		c.Count("queries_checked", 1)
 		rp := map[string]interface{}{"sequence": names, "step": step}
 		key := "op " + op.Name
+		if strings.HasPrefix(got, "panic:") {
+			c.Violation(key+" panics", fmt.Sprintf("after %v, %s panicked: %s", names[:step], op.Name, got), rp)
+			return false
+		}
 		if !reflect.DeepEqual(before, after) {
 			c.Violation(key+" mutates", fmt.Sprintf("after %v, %s changed caller-visible state: %+v -> %+v", names[:step], op.Name, before, after), rp)
 			return false
